@@ -51,6 +51,7 @@ fn gen_case(rng: &mut Rng) -> ConnCase {
             tag_base: (i as u8) & 1,
             extras_pre: &QUERIES,
             extras_stream: &QUERIES,
+            marker: None,
         };
         let b = gen::push_request(rng, &mut wire_bytes, &spec);
         // a query in the same stretch of bytes as the end of the request
